@@ -137,6 +137,9 @@ def oracle_buffers(case: dict) -> Outcome:
     mx = max(load)
     pad = case.get("pad", 0) * ALIGN  # the real caller gives every rank max(load) bytes; extra slack must be harmless
     seg = mx + pad
+    if seg * m > 64 * 1024 * 1024:
+        out.classes.append("skipped_too_large")
+        return out
     for name, cls, _ in _copies():
         buf = torch.zeros(seg * m, dtype=torch.int8)
         local = torch.split(buf, seg) if seg > 0 else tuple(buf for _ in range(m))
@@ -169,7 +172,8 @@ def oracle_buffers(case: dict) -> Outcome:
 def strategy():
     from hypothesis import strategies as st
 
-    size = st.one_of(st.integers(1, 4096), st.sampled_from([64, 128, 65, 63, 1, 4096, 127, 129, 192]), st.integers(1, 130))
+    size = st.one_of(st.integers(1, 4096), st.sampled_from([64, 128, 65, 63, 1, 4096, 127, 129, 192]), st.integers(1, 130), st.integers(1, 2**22),
+                     st.sampled_from([2**20, 2**20 + 1, 4 * 1024 * 1024, 4 * 1024 * 1024 - 63]))
     return st.fixed_dictionaries({
         "sizes": st.one_of(st.lists(size, min_size=1, max_size=12), st.lists(size, min_size=1, max_size=40), st.lists(st.sampled_from([64, 100, 128]), min_size=2, max_size=16)),
         "m": st.one_of(st.integers(1, 16), st.sampled_from([2, 3, 4, 8])),
